@@ -52,9 +52,10 @@ def count_configurations_rec(feature: Feature) -> int:
         elif relation.is_or():
             children_counts = [count_configurations_rec(f) + 1 for f in relation.children]
             counts.append(math.prod(children_counts) - 1)
-        elif relation.is_group():
-            # Mutex and group cardinality [a..b]: add up, for every allowed number k of
-            # selected children, the configurations of every k-subset of the children.
+        else:
+            # Mutex, group cardinality [a..b] and any other cardinality (e.g., [a..*] or a
+            # single child with [1..*]): add up, for every allowed number k of selected
+            # children, the configurations of every k-subset of the children.
             children_counts = [count_configurations_rec(f) for f in relation.children]
             subsets_counts = [1] + [0] * len(children_counts)
             for i, child_count in enumerate(children_counts):
